@@ -142,11 +142,17 @@ impl Polytope {
 
         // add linear constraints
         for (row, bias) in zip(self.mat.rows(), &self.bias) {
-            let constraint: Vec<(Variable, f64)> =
-                zip(&vars, row).map(|(var, coeff)| (*var, *coeff)).collect();
+            // scale every row to unit norm: the half-space is the same, but rows of very different
+            // magnitude make the simplex solver misjudge feasibility
+            let norm = row.iter().map(|x| x * x).sum::<f64>().sqrt();
+            let scale = if norm.is_normal() { 1. / norm } else { 1. };
+
+            let constraint: Vec<(Variable, f64)> = zip(&vars, row)
+                .map(|(var, coeff)| (*var, *coeff * scale))
+                .collect();
 
             // set bias as upper bound (inclusive) of the linear constraint
-            pb.add_constraint(constraint.as_slice(), ComparisonOp::Le, *bias);
+            pb.add_constraint(constraint.as_slice(), ComparisonOp::Le, *bias * scale);
         }
 
         // print!("{:?}", solved.status());
